@@ -84,6 +84,11 @@ pub fn op_count() -> usize {
 	SESSION.lock().unwrap().as_ref().map(|s| s.ops.len()).unwrap_or(0)
 }
 
+/// Path (relative to the session root) last known for an inode.
+pub fn path_of_ino(ino: u64) -> Option<String> {
+	SESSION.lock().unwrap().as_ref().and_then(|s| s.ino_path.get(&ino).cloned())
+}
+
 /// Copy of the ops logged since position `from`.
 pub fn ops_since(from: usize) -> Vec<Op> {
 	SESSION.lock().unwrap().as_ref().map(|s| s.ops[from.min(s.ops.len())..].to_vec()).unwrap_or_default()
@@ -411,6 +416,37 @@ unsafe fn simulated_fd(fd: c_int) -> Option<(u64, u64)> {
 	}
 }
 
+thread_local! {
+	/// Harness code to run right after a successful simulated write (an I/O-level yield
+	/// point: the caller is in the middle of whatever multi-write operation it performs).
+	static IO_HOOK: std::cell::RefCell<Option<Box<dyn FnMut(&str)>>> = const { std::cell::RefCell::new(None) };
+	static IN_IO_HOOK: std::cell::Cell<bool> = const { std::cell::Cell::new(false) };
+}
+
+/// Install (or remove) the write hook of this thread. The hook receives the path class of
+/// the file written to. It is not re-entered by writes it performs itself.
+pub fn set_io_hook(h: Option<Box<dyn FnMut(&str)>>) {
+	IO_HOOK.with(|c| *c.borrow_mut() = h);
+}
+
+fn run_io_hook(class: &str) {
+	if IN_IO_HOOK.with(|c| c.get()) {
+		return;
+	}
+	let h = IO_HOOK.with(|c| c.borrow_mut().take());
+	if let Some(mut h) = h {
+		IN_IO_HOOK.with(|c| c.set(true));
+		h(class);
+		IN_IO_HOOK.with(|c| c.set(false));
+		IO_HOOK.with(|c| {
+			let mut g = c.borrow_mut();
+			if g.is_none() {
+				*g = Some(h);
+			}
+		});
+	}
+}
+
 unsafe fn do_write(fd: c_int, buf: *const c_void, count: size_t, at: Option<off_t>) -> ssize_t {
 	let real_write = real!(write: fn(c_int, *const c_void, size_t) -> ssize_t);
 	let real_pwrite = real!(pwrite64: fn(c_int, *const c_void, size_t, off_t) -> ssize_t);
@@ -479,6 +515,10 @@ unsafe fn do_write(fd: c_int, buf: *const c_void, count: size_t, at: Option<off_
 		if short {
 			s.pending_short = Some(ino);
 		}
+	}
+	drop(g);
+	if n > 0 {
+		run_io_hook(&class);
 	}
 	n
 }
